@@ -44,6 +44,14 @@ pub fn gen(seed: u64, thorough: bool, out: &mut impl Write) {
         // a filler entry happens to be active: CR3 = filler frame of slot r
         emit(out, &[1, addr, (r + 1) << 12, 600, 0]);
         emit(out, &[1, addr, (r + 2) << 12, 600, 0]);
+        // not recursive: two or three indices off in every pattern (pairs that agree with each other but not
+        // with the level-4 index included); the entry is "active" everywhere
+        {
+            let o = if placeable(r + 1) { r + 1 } else { r - 1 };
+            for (i3, i2, i1) in [(r, o, o), (o, o, r), (o, r, o), (o, o, o)] {
+                emit(out, &[1, compose(r, i3, i2, i1), frame, r, frame | 1]);
+            }
+        }
         // not recursive: one index off, each position; the entry is "active" everywhere
         for pos in 0..3 {
             let o = if placeable(r + 1) { r + 1 } else { r - 1 };
@@ -72,6 +80,9 @@ pub fn gen(seed: u64, thorough: bool, out: &mut impl Write) {
             emit(out, &[5, compose(r, r, o, r)]);
             emit(out, &[5, compose(r, r, r, o)]);
             emit(out, &[5, compose(o, r, r, r)]);
+            emit(out, &[5, compose(r, r, o, o)]);
+            emit(out, &[5, compose(r, o, o, r)]);
+            emit(out, &[5, compose(r, o, o, o)]);
         }
     }
     // ---- recursive addresses: every recursive index x pages with edge / random indices
